@@ -193,3 +193,22 @@ def jsonclass_bodies(rng):
         yield json.dumps([{"jsonrpc": "2.0", "id": 1, "method": "echo"}, obj])
         yield json.dumps(dict(obj, extra=1))
         yield json.dumps({"method": "echo", "id": 2, "params": [dict(obj, attr=[1, 2])]})
+    # ids that are (or hold) descriptors of harmless classes whose instances cannot be written back as JSON, on valid
+    # calls and on entries that fail validation for another reason, alone and next to ordinary entries
+    for desc in UNWRITABLE_DESCRIPTORS:
+        for did in ({"__jsonclass__": desc}, [{"__jsonclass__": desc}], {"k": {"__jsonclass__": desc}}):
+            for entry in ({"method": "echo", "params": [1]}, {"method": "fail"}, {"method": "nosuch"}, {"method": 5},
+                          {"method": ""}, {}, {"method": "echo", "params": 7}, {"method": "two", "params": [1]}):
+                for two in (True, False):
+                    e = dict(entry, id=did)
+                    if two:
+                        e["jsonrpc"] = "2.0"
+                    yield json.dumps(e)
+                    if rng.random() < 0.5:
+                        yield json.dumps([{"jsonrpc": "2.0", "id": 41, "method": "echo", "params": [1]}, e,
+                                          {"id": "n2", "method": "echo", "params": [2]}])
+
+
+UNWRITABLE_DESCRIPTORS = [["decimal.Decimal", ["1.5"]], ["builtins.set", [[1, 2]]], ["builtins.frozenset", [[1]]],
+                          ["builtins.bytes", [[104, 105]]], ["builtins.complex", [1, 2]], ["builtins.object", []],
+                          ["fractions.Fraction", [1, 3]], ["datetime.date", [2020, 1, 2]]]
